@@ -265,9 +265,10 @@ CHECKS = {
   "harnesses": [
    {"pkg": "directive", "fn": "VerifH_UnescapeRoundTrip", "quick": {"N": 5}, "thorough": {"N": 8}},
    {"pkg": "directive", "fn": "VerifH_QuoteNeutral", "quick": {"N": 4}, "thorough": {"N": 6}},
+   doc("VerifH_ParameterDoc", {"N": 3}, {"N": 4}),
   ],
-  "assumptions": [],
-  "not_decided": ["values longer than N bytes", "scanner acceptance of quoted forms is covered by the C14 harness prefix 'Title \"'"],
+  "assumptions": ["whole pipeline (VerifH_ParameterDoc): hosts Title, Version, BaseUrl, JSON-RPC Method name; the value is followed by one of: LF, blank LF, TAB LF, blank or TAB and an annotation (Method only), blank or TAB and a comment, end of input; bare values are N bytes over {a b . - @ : / *} not starting with // or /*; quoted values are N bytes over {a blank TAB \" \\ # / *} containing an 'a'; jerr.NewLocation summarised"],
+  "not_decided": ["values longer than N bytes", "the rejection clauses at document level (unterminated quote, backslash before another character): decided for the scanner by the C14 / C01 prefix instances 'Title \"'", "hosts Query example and path"],
  },
  "C18": {
   "title": "Banned directives",
